@@ -98,6 +98,24 @@ class Harness:
         """hook: return True to skip the model-vs-real comparison for this witness"""
         return False
 
+class Prepared(Harness):
+    """the same harness with operands that are results of an earlier operation: the op wrapper deep-copies the frames named
+    data / a / b before the call (their columns then own their memory instead of being views of the arrays given)"""
+    def __init__(self, inner):
+        self.inner = inner
+        self.prop = inner.prop; self.opname = inner.opname; self.goals = inner.goals
+        base, sep, n = inner.name.rpartition(".n")
+        self.name = f"{base}.prepared.n{n}" if sep else inner.name + ".prepared"
+        self.bounds = dict(inner.bounds, operands="results of an earlier operation (deep copies)")
+        self.symbolic = inner.symbolic; self.choice_dims = inner.choice_dims
+        if getattr(inner, "observed_only", False): self.observed_only = True
+    def build(self, ctx):
+        inp = self.inner.build(ctx); inp["prep"] = "deepcopy"; return inp
+    def spec(self, inp, out): return self.inner.spec(inp, out)
+    def regions(self, inp): return self.inner.regions(inp)
+    def probes(self, inp): return self.inner.probes(inp)
+    def conformance_ignore(self, real, pred): return self.inner.conformance_ignore(real, pred)
+
 _W = None
 
 def world():
